@@ -118,7 +118,7 @@ def run(ctx: Ctx, replay: str | None) -> None:
     if quick:
         cmod, vmod = 12, 4
     else:
-        cmod, vmod = 12, 1
+        cmod, vmod = 24, 1
         cfg = (cfg.replace("MaxIns = 2", "MaxIns = 3").replace("Thin = TRUE", "Thin = FALSE")
                .replace("LeafIdx = {1, 2, 4, 5}", "LeafIdx = {1, 2, 3, 4, 5, 6}"))
     cfg = (cfg.replace("SampleMod = 5", f"SampleMod = {cmod}").replace("SamplePick = 0", f"SamplePick = {ctx.seed % cmod}")
@@ -140,7 +140,7 @@ def run(ctx: Ctx, replay: str | None) -> None:
     ctx.extra["model_exhaustive_within_bounds"] = True
     ctx.extra["replayed_fraction"] = {"calls": f"1/{cmod} (content hash)", "value_scenarios": f"1/{vmod} (content hash)"}
 
-    n_shapes = 1 if quick else 3
+    n_shapes = 1 if quick else 2
     # quick: float64 and float32 alternate over the scenarios; thorough: both on every scenario
     def dts(i):
         return [dtypes[(i + ctx.seed) % 2]] if quick else dtypes
